@@ -85,6 +85,12 @@ func stableString(v interface{}) string {
 	return sb.String()
 }
 
+// isNilPointer reports whether v holds a nil pointer (of any pointer type)
+func isNilPointer(v interface{}) bool {
+	rv := reflect.ValueOf(v)
+	return rv.Kind() == reflect.Ptr && rv.IsNil()
+}
+
 func writeStable(sb *strings.Builder, v reflect.Value, depth int) {
 	if !v.IsValid() {
 		sb.WriteString("<nil>")
